@@ -690,7 +690,8 @@ int myth_verif_gettime(struct timespec *ts) {
   } else {
     uint64_t d = mvsim_rng_below(&g_rng_clock, 1000);
     if (d < (uint64_t)g_cfg.clk_zero_permille) inc = 0;
-    else if (d < (uint64_t)(g_cfg.clk_zero_permille + g_cfg.clk_jump_permille)) inc = (long)g_cfg.clk_jump_ns;
+    else if (d < (uint64_t)(g_cfg.clk_zero_permille + g_cfg.clk_jump_permille)
+             && g_clock_ns + g_cfg.clk_jump_ns < 12000000000000000000ULL) inc = (long)g_cfg.clk_jump_ns;   /* never overflow the 64-bit ns clock */
     else inc = (long)(1 + mvsim_rng_below(&g_rng_clock, 2 * g_cfg.clk_read_ns));
   }
   lv_push(&g_tr_clock, inc);
